@@ -784,12 +784,20 @@ func (s *Store) DeleteShard(shardID uint64) error {
 	epoch := s.epochs[shardID]
 	s.mu.Unlock()
 
-	// Ensure the pending deletion flag is cleared on exit.
+	// Ensure the pending deletion flag is cleared on exit. A deletion that
+	// stops before the shard is closed (its own or another shard's index is
+	// not available right now) leaves everything on disk and is meant to be
+	// tried again: the shard has to stay known to the store for that.
+	closing := false
 	defer func() {
 		s.mu.Lock()
 		defer s.mu.Unlock()
-		delete(s.epochs, shardID)
 		delete(s.pendingShardDeletes, shardID)
+		if !closing {
+			s.shards[shardID] = sh
+			return
+		}
+		delete(s.epochs, shardID)
 	}()
 
 	// Get the shard's local bitset of series IDs.
@@ -798,7 +806,9 @@ func (s *Store) DeleteShard(shardID uint64) error {
 		return err
 	}
 
-	ss := index.SeriesIDSet()
+	// A copy: the in-memory index hands out the shard's own set, and the
+	// deletion may still stop below and leave the shard in service.
+	ss := index.SeriesIDSet().Clone()
 
 	err = s.walkShards(shards, func(sh *Shard) error {
 		index, err := sh.Index()
@@ -875,6 +885,7 @@ func (s *Store) DeleteShard(shardID uint64) error {
 	}
 
 	// Close the shard.
+	closing = true
 	if err := sh.Close(); err != nil {
 		return err
 	}
